@@ -1,4 +1,79 @@
-(* C12 — placeholder (extended below). *)
-From Astro Require Import Base Text FormatModel.
-Theorem C12_placeholder : parse_format_string [] = []. Proof. exact eq_refl. Qed.
-Print Assumptions C12_placeholder.
+(* C12 — parsing with the pattern that produced a string recovers the value.
+   Patterns are item lists (PatternSpec, see C11); the text is format(v, unparse items) = render items (C11).
+   Hypotheses of the round-trip theorems, i.e. the unambiguous-field grammar:
+     swf None items      the item grammar of C11;
+     fits_chain ...      every field is one the parser can delimit in the text that follows it:
+                         y, yyy, yyyy, one-letter numeric fields (M d w H K h k m s) and D/DD are followed by a character
+                         that is not a digit (or by the end); yy is excluded; yyyyy+ needs |year| < 10^width; MMMMM
+                         (narrow month) is excluded; a zone field must be wide enough for the offset and, where the code
+                         looks ahead, must not be followed by text that reads as more of it (FieldProofs.zone_fits);
+     has ... u           the pattern contains a field that yields unit u.
+   PROVED (RoundTrip.v), for DateTime values and patterns that carry a full date (year and month+day, or year and day of
+   year), a full time of day (24-hour field, or 12-hour field with a/b; minute; second; at most one fraction field) and a
+   zone: parse(format(v, p), p) is Ok, has the same offset and the same instant truncated to the precision the pattern
+   writes, is a valid DateTime, and formatting it with p reproduces the same text.  Literals of any characters (multi-byte
+   included), quoted text and '' are covered by the item lemma.
+   The per-symbol agreement of formatter and parser (all 19 symbols, every width) is C12_date_symbols / C12_time_symbols.
+   NOT PROVED (checked by the differential run only): patterns that carry only part of a date or time (the defaults
+   0001-01-01, 00:00:00, UTC), and the Date / Time types' own parse loops (the per-symbol theorems apply to them as well). *)
+From Astro Require Import Base Text CalSpec DateModel TimeModel ApiModel InstantSpec FormatModel ParseModel PatternSpec ValueFields
+  TextProofs PatternProofs FieldProofs RoundTrip.
+
+Theorem C12_datetime_partial : forall now v items sel, Inv_dt v /\ inst_in_range (local_instant v) -> swf None items = true ->
+  let L := local_instant v in let d := L / NANOS_PER_DAY in let n := L mod NANOS_PER_DAY in let off := dt_off v in
+  fits_chain d off (fields_of_day d n off) items [] ->
+  has d n off items PYear = true ->
+  (has d n off items PDayOfYear = true \/ (has d n off items PMonth = true /\ has d n off items PDayOfMonth = true)) ->
+  (has d n off items PHour = true \/ (has d n off items PPeriodHour = true /\ has d n off items PPeriod = true)) ->
+  has d n off items PMinute = true -> has d n off items PSecond = true ->
+  match sel with Some s => is_sub s = true | None => True end ->
+  (forall u, is_sub u = true -> has d n off items u = match sel with Some s => punit_eqb s u | None => false end) ->
+  has d n off items POffset = true ->
+  exists txt v', dt_format v (unparse items) = Ok txt /\ dt_parse now txt (unparse items) = Ok v' /\
+    dt_off v' = off /\ instant v' = L / prec_unit sel * prec_unit sel - off * NANOS_PER_SEC /\
+    (Inv_dt v' /\ inst_in_range (local_instant v')) /\
+    dt_format v' (unparse items) = Ok txt.
+Proof. exact dt_roundtrip_reformat. Qed.
+
+(* formatter and parser agree on every symbol, whatever the pattern around it *)
+Theorem C12_date_symbols : forall now d c w rest, in_i32 d -> is_date_sym c = true -> date_field_ok d c w -> field_delim 0 c w rest ->
+  exists txt, format_date_part (run c w) d = Ok txt /\ parse_date_part now (run c w) (txt ++ rest) = Ok (expected_date d c, rest).
+Proof. exact date_sym_back. Qed.
+Theorem C12_time_symbols : forall n off c w rest, 0 <= n < NANOS_PER_DAY -> off_ok off -> is_time_sym c = true -> 1 <= w -> field_delim off c w rest ->
+  exists txt, format_time_part (run c w) n off = Ok txt /\ parse_time_part (run c w) (txt ++ rest) = Ok (expected_time n off c w, rest).
+Proof. exact time_sym_back. Qed.
+(* one item written and read back: fields, literal runs, quoted text, escaped apostrophes *)
+Theorem C12_item : forall now F d n off it rest, in_i32 d -> 0 <= n < NANOS_PER_DAY -> off_ok off ->
+  date_fields_agree F d -> time_fields_agree F n off -> item_ok it = true -> item_fits d off it rest ->
+  render_part (kind_fun 2 d n off) (part_of it) = Ok (render_item 2 F it) /\
+  parse_step now (part_of it) (render_item 2 F it ++ rest) = Ok (item_expected d n off it, rest).
+Proof. exact item_back. Qed.
+
+(* non-vacuity: yyyy-MM-dd'T'HH:mm:ss.nnnnn xxxxx and 2022-05-02T14:00:20.123456789 at -00:30 meet every hypothesis *)
+Definition ex_items : list pitem :=
+  [PField 121 4; PLit 45 1; PField 77 2; PLit 45 1; PField 100 2; PQuoted [84]; PField 72 2; PLit 58 1; PField 109 2; PLit 58 1;
+   PField 115 2; PLit 46 1; PField 110 5; PLit 32 1; PField 120 5].
+Definition ex_v : DT := mkDT 738276 52220123456789 (-1800).
+Example C12_nonvacuous :
+  let L := local_instant ex_v in let d := L / NANOS_PER_DAY in let n := L mod NANOS_PER_DAY in let off := dt_off ex_v in
+  (Inv_dt ex_v /\ inst_in_range (local_instant ex_v)) /\ swf None ex_items = true /\
+  fits_chain d off (fields_of_day d n off) ex_items [] /\
+  has d n off ex_items PYear = true /\ has d n off ex_items PMonth = true /\ has d n off ex_items PDayOfMonth = true /\
+  has d n off ex_items PHour = true /\ has d n off ex_items PMinute = true /\ has d n off ex_items PSecond = true /\
+  (forall u, is_sub u = true -> has d n off ex_items u = punit_eqb PNanos u) /\ has d n off ex_items POffset = true /\
+  (render 2 (fields_of_day d n off) ex_items =
+    [50;48;50;50;45;48;53;45;48;50;84;49;52;58;48;48;58;50;48;46;49;50;51;52;53;54;55;56;57;32;45;48;48;58;51;48]).
+Proof.
+  cbv zeta. split.
+  { unfold ex_v, Inv_dt, inst_in_range, local_instant, instant, MIN_I, MAX_I, in_i32, off_ok. cbn [dt_days dt_nanos dt_off].
+    unfold NANOS_PER_DAY, NANOS_PER_SEC, SECS_PER_DAY, I32_MIN, I32_MAX. lia. }
+  split; [vm_compute; reflexivity|]. split.
+  { vm_compute. repeat split; intros; try discriminate; try reflexivity; try lia. }
+  repeat (split; [vm_compute; reflexivity|]). split; [|split; vm_compute; reflexivity].
+  intros u Hu. destruct u; try discriminate Hu; vm_compute; reflexivity.
+Qed.
+
+Print Assumptions C12_datetime_partial.
+Print Assumptions C12_date_symbols.
+Print Assumptions C12_time_symbols.
+Print Assumptions C12_item.
